@@ -126,6 +126,11 @@ func (db *DB) GetBucket(i uint) (*Bucket, error) {
 	if readErr != nil {
 		return nil, readErr
 	}
+	if valueSize := db.GetValueSize(); valueSize > maxValueSize || uint64(bucket.HashLen)+valueSize > uint64(bucket.Stride) {
+		// The hash length and the value size come from the file and are used to slice entries of Stride bytes
+		// (the value size is compared before its truncation to uint8).
+		return nil, fmt.Errorf("invalid bucket header: hash length %d + value size %d exceeds entry size %d", bucket.HashLen, valueSize, bucket.Stride)
+	}
 	bucket.Entries = io.NewSectionReader(db.Stream, int64(bucket.FileOffset), int64(bucket.NumEntries)*int64(bucket.Stride))
 	if db.prefetch {
 		// TODO: find good value for numEntriesToPrefetch
